@@ -14,10 +14,19 @@ One JSON case per stdin line, one JSON result per stdout line.
       -> the same observations for an object built through the public classes of stix2.patterns
 
 Only public behaviour is observed: attributes of the model classes, str(), exception classes.
+
+Optional keys of a case (the "alternate run" of harness/props/c10.py: every answer must equal the default run):
+  "tz": a POSIX TZ value set (time.tzset) before the case is run
+  "forms": "alt" -- the same call / the same object through another public argument form (version positional or
+      left to its default, constants from their text forms, keyword arguments, plain values for qualifiers);
+      "alt_k" rotates which form is taken
+Worker argument --hashseed=N: re-executes the interpreter with PYTHONHASHSEED=N.
 """
 import datetime
 import json
+import os
 import sys
+import time
 from decimal import Decimal
 
 import antlr4
@@ -474,10 +483,46 @@ def meaning_of_object(o):
 
 # ---------------------------------------------------------------- programmatic construction
 
+ALT = {"on": False, "k": 0}
+
+
+def alt(n):
+    """which of n argument forms to take (0 = the default form)"""
+    if not ALT["on"]:
+        return 0
+    ALT["k"] += 1
+    return ALT["k"] % n
+
+
+def ts_text(v):
+    y, mo, d, h, mi, sec, us = v
+    frac = (".%06d" % us).rstrip("0") if us else ""
+    return "%04d-%02d-%02dT%02d:%02d:%02d%sZ" % (y, mo, d, h, mi, sec, frac)
+
+
 def b_const(s):
     k = s["k"]
     if k == "raw":           # a plain Python value: the classes convert it with make_constant
         return s["v"]
+    if ALT["on"]:
+        a = alt(3)
+        if k == "str" and a:
+            return P.StringConstant(value=s["v"], from_parse_tree=False) if a == 1 else P.StringConstant(s["v"], False)
+        if k == "int" and a:
+            return P.IntegerConstant(str(s["v"])) if a == 1 else P.IntegerConstant(value=s["v"])
+        if k == "float" and a:
+            return P.FloatConstant(s["v"]) if a == 1 else P.FloatConstant(value=float(s["v"]))
+        if k == "bool" and a:
+            return P.BooleanConstant(("true" if s["v"] else "false") if a == 1 else (1 if s["v"] else 0))
+        if k == "hex" and a:
+            return P.HexConstant("h'%s'" % s["v"]) if a == 1 else P.HexConstant("h'%s'" % s["v"], from_parse_tree=True)
+        if k == "bin" and a:
+            return P.BinaryConstant("b'%s'" % s["v"], from_parse_tree=True) if a == 1 else P.BinaryConstant(value=s["v"])
+        if k == "ts" and a:
+            y, mo, d, h, mi, sec, us = s["v"]
+            if a == 1:
+                return P.TimestampConstant(ts_text(s["v"]))
+            return P.TimestampConstant(datetime.datetime(y, mo, d, h, mi, sec, us, tzinfo=datetime.timezone.utc))
     if k == "str":
         return P.StringConstant(s["v"])
     if k == "int":
@@ -524,11 +569,22 @@ CPD_BY_NAME = {v: k for k, v in CPD.items()}
 
 def b_qual(s):
     k = s["k"]
+    if "c" in s:             # the number as a constant specification (int / float / raw)
+        c = b_const(s["c"])
+        return P.RepeatQualifier(c) if k == "repeat" else P.WithinQualifier(c)
+    a = alt(2)
     if k == "repeat":
+        if a:
+            return P.RepeatQualifier(times_to_repeat=P.IntegerConstant(s["n"]) if s.get("raw") else s["n"])
         return P.RepeatQualifier(s["n"] if s.get("raw") else P.IntegerConstant(s["n"]))
     if k == "within":
+        if a:
+            return P.WithinQualifier(number_of_seconds=P.IntegerConstant(s["n"]) if s.get("raw") else s["n"])
         return P.WithinQualifier(s["n"] if s.get("raw") else P.IntegerConstant(s["n"]))
     if k == "startstop":
+        if a and s["a"]["k"] == "ts" and s["b"]["k"] == "ts":     # datetime objects handed to the qualifier itself
+            mk = lambda v: datetime.datetime(*v)                    # noqa: E731
+            return P.StartStopQualifier(start_time=mk(s["a"]["v"]), stop_time=mk(s["b"]["v"]))
         return P.StartStopQualifier(b_const(s["a"]), b_const(s["b"]))
     raise ValueError(k)
 
@@ -537,6 +593,11 @@ def b_expr(s):
     k = s["k"]
     if k == "cmp":
         lhs = s["lhs_text"] if "lhs_text" in s else b_path(s["lhs"])      # a str goes through ObjectPath.make_object_path
+        a = alt(3)
+        if a == 1:
+            return CMP_BY_NAME[s["cls"]](lhs=lhs, rhs=b_const(s["rhs"]), negated=s["neg"])
+        if a == 2 and not s["neg"]:
+            return CMP_BY_NAME[s["cls"]](lhs, b_const(s["rhs"]))       # negated left to its default
         return CMP_BY_NAME[s["cls"]](lhs, b_const(s["rhs"]), s["neg"])
     if k == "bool":
         return BOOL_BY_NAME[s["op"]]([b_expr(x) for x in s["ops"]])
@@ -578,13 +639,25 @@ def observe_object(obj, version, res):
     except Exception as e:  # noqa: BLE001
         res["re_tree"] = None
     try:
-        o2 = create_pattern_object(s, version=version)
+        o2 = cpo(s, version)
         res["re_ast"] = dump(o2)
         res["re_m_ast"] = meaning_of_object(o2)
         res["re_str"] = q(str(o2))
     except Exception as e:  # noqa: BLE001
         res["re_ast"] = exc_name(e)
         res["re_str"] = None
+
+
+def cpo(text, version):
+    """create_pattern_object through one of its public call forms"""
+    a = alt(3)
+    if a == 1:
+        return create_pattern_object(text, "", "", version)
+    if a == 2:
+        if version == "2.1":
+            return create_pattern_object(text)           # DEFAULT_VERSION
+        return create_pattern_object(pattern=text, version=version, module_suffix="", module_name="")
+    return create_pattern_object(text, version=version)
 
 
 def run_parse(case):
@@ -598,7 +671,7 @@ def run_parse(case):
         res["tree"] = None
         res["tree_err"] = str(e)[:200]
     try:
-        obj = create_pattern_object(text, version=version)
+        obj = cpo(text, version)
     except Exception as e:  # noqa: BLE001
         res["ast"] = exc_name(e)
         return res
@@ -619,15 +692,31 @@ def run_prog(case):
 
 
 def main():
+    for a in sys.argv[1:]:
+        if a.startswith("--hashseed=") and os.environ.get("PYTHONHASHSEED") != a.split("=", 1)[1]:
+            os.environ["PYTHONHASHSEED"] = a.split("=", 1)[1]
+            os.execv(sys.executable, [sys.executable] + sys.argv)
+    tz0 = os.environ.get("TZ")
     for line in sys.stdin:
         line = line.strip()
         if not line:
             continue
         case = json.loads(line)
+        tz = case.get("tz", tz0)
+        if tz != os.environ.get("TZ"):
+            if tz is None:
+                os.environ.pop("TZ", None)
+            else:
+                os.environ["TZ"] = tz
+            time.tzset()
+        ALT["on"] = case.get("forms") == "alt"
+        ALT["k"] = int(case.get("alt_k", 0))
         try:
             r = run_parse(case) if case["kind"] == "parse" else run_prog(case)
         except RecursionError:
             r = {"ast": "EXC RecursionError"}
+        except Exception as e:  # noqa: BLE001  -- never lose the batch: the case is reported as it stands
+            r = {"ast": "EXC-OBSERVER " + type(e).__name__, "observer_error": str(e)[:300]}
         print(json.dumps(r))
 
 
